@@ -48,6 +48,9 @@ func runC07(r *core.Run) {
 			n = []int{159, 160, 161, 400}[rng.Intn(4)]
 		}
 		kinds := []colGen{genNum(3), genText, genInt(2), genDT, genNum(40)}
+		if c%5 == 1 {
+			kinds[3] = genDTFar
+		}
 		if c%5 == 2 {
 			kinds[4] = genBig // integers around 2^53, 10^18 and the int64 bounds, a few floats among them
 		}
